@@ -59,6 +59,7 @@ def roundtrip(bounds, blocked, api):
             require(same_int(f.pos, 0), 'file not rewound by close', key='C03/rewind', replay=rp)
         else:
             data = m.vbs_list_to_bytes(recs, blocked=blocked)
+            core.FUEL.set(nblocks + 4)
             again = m.vbs_list_to_bytes(recs, blocked=blocked)
             req_eq(again, data, 'a second call of vbs_list_to_bytes with the same records returns something else', key='C03/second-call', replay=rp)
         E = stream_of(recs)
@@ -113,7 +114,7 @@ def default_reader(nmax):
 def configured_max(newmax, blocked):
     """the maximum record length is read from the configuration: raising it at run time must take effect"""
     def h():
-        core.FUEL.set(newmax // 1012 + 6)
+        core.FUEL.set(3 * (newmax // 1012) + 16)
         m = M().mciipm
         cfg = M().config.config
         old = cfg.get('MAX_VBS_RECORD_LENGTH', 6000)
